@@ -18,6 +18,7 @@ func init() {
 func c15(c *Ctx) {
 	for s := 0; s < c.Pick(4, 30); s++ {
 		nfg, nbg := c.R.Range(2, 4), c.R.Range(1, 3)
+		c.Journal(fmt.Sprintf("C15 session %d: %d fg + %d bg scribbling handlers receiving tagged and untagged PRIVMSG lines", s, nfg, nbg))
 		total := nfg + nbg
 		var mu sync.Mutex
 		saw := map[string][]string{} // raw -> what each invocation saw
